@@ -118,7 +118,22 @@ func vp_C05_redact() {
 	k := vpNondetStringN("k", klen)
 	kval := vpNondetStringN("kval", 2)
 	ck := vpNondetStringN("ck", klen)
-	cval := vpNondetStringN("cval", 2)
+	// the value under the extra content key ranges over every JSON kind
+	var cval interface{}
+	switch vpChoice("cval_kind", "string", "null", "int", "bool", "object", "array") {
+	case "string":
+		cval = vpNondetStringN("cval", 2)
+	case "null":
+		cval = nil
+	case "int":
+		cval = int64(vpNondetBits("cval_int", 20))
+	case "bool":
+		cval = vpNondetBool("cval_bool")
+	case "object":
+		cval = vpJObj("x", "y")
+	default:
+		cval = vpJArr("x", int64(1))
+	}
 	// plain ASCII keys (J2 bound); no duplicate member names
 	for _, n := range []string{"type", "room_id", "sender", "state_key", "content", "hashes", "signatures", "depth", "origin_server_ts", "unsigned", "redacts"} {
 		vpAssume(k != n)
@@ -130,6 +145,7 @@ func vp_C05_redact() {
 	}
 
 	content := vpJObj("body", "hello", ck, cval)
+	cvalDoc := vpJVal(cval)
 	ev := vpJObj(
 		"type", typ, "room_id", vpRoom, "sender", vpAlice, "state_key", "", "content", content,
 		"hashes", vpJObj("sha256", "aGFzaA"), "signatures", vpJObj("x", vpJObj("ed25519:1", "c2ln")),
@@ -185,7 +201,7 @@ func vp_C05_redact() {
 		kf2 := algo >= 5 && typ == spec.MRoomMember && ck == "third_party_invite"
 		vpAssertKF("content-extra-key", ckPresent == vpKeepContent(algo, typ, ck), "KF-C05-2", kf2)
 		if ckPresent {
-			vpAssert("content-extra-value", bytes.Equal(cv, vpJVal(cval)))
+			vpAssert("content-extra-value", bytes.Equal(cv, cvalDoc))
 		}
 	}
 	// idempotence
